@@ -11,6 +11,6 @@ if not settings.configured:
     )
     django.setup()
 
-from .djapp.models import Author, Comment, Post  # noqa: E402
+from .djapp.models import Author, Comment, Kind, Label, Post  # noqa: E402
 
-MODELS = {"Author": Author, "Post": Post, "Comment": Comment}
+MODELS = {"Author": Author, "Post": Post, "Comment": Comment, "Label": Label, "Kind": Kind}
